@@ -49,3 +49,35 @@ func VerifC11_ChunkIdsUniqueAcrossIncarnations() {
 //verif:solver cvc5-int
 //verif:reach done
 func VerifC05_ChunkIdsOrderedAcrossIncarnations() { VerifC11_ChunkIdsUniqueAcrossIncarnations() }
+
+// VerifC05_ChunkIdsOrderedAcrossRestart: the agent process ends and a new one
+// starts (package-level state is re-initialised, the clock keeps running): the
+// first chunk id of the new process sorts after the last id of the old one -
+// recovery and retransmission sort stored chunks by id, so an id that depends
+// on anything that restarts with the process (time since start, a counter)
+// puts new chunks in front of the recovered backlog.
+//
+//verif:native off
+//verif:solver cvc5-int
+//verif:reach done
+func VerifC05_ChunkIdsOrderedAcrossRestart() {
+	g1 := newChunkIDGenerator(".ff")
+	g1.Generate()
+	a := g1.Generate()
+	t1 := time.Now()
+	sym.RestartProcess()
+	t2 := time.Now()
+	sym.Assume(t2.UnixNano() > t1.UnixNano()) // time passes between the two processes
+	g2 := newChunkIDGenerator(".ff")
+	b := g2.Generate()
+	sym.Assert(a != b, "chunk ids are unique across a restart of the process")
+	sym.Assert(a < b, "ids made after a restart sort after the ids made before it")
+	sym.Reach("done")
+}
+
+// VerifC11_ChunkIdsUniqueAcrossRestart: the same run read for C11 (the id is the storage name).
+//
+//verif:native off
+//verif:solver cvc5-int
+//verif:reach done
+func VerifC11_ChunkIdsUniqueAcrossRestart() { VerifC05_ChunkIdsOrderedAcrossRestart() }
